@@ -8,6 +8,7 @@ from .. import genwork, oracles
 from ..core import call_watchdog
 
 LEVEL = "exploration"
+TECHNIQUE = "runtime monitoring: postcondition monitor on every gen_* return (sys.monitoring, also inside the repository's own tests and pool workers) judged by an adjacency-set reference model (shape/dtype/boundary/spanning-tree oracle) over a generated kwargs x shape x RNG-state workload"
 RULE = ("direct calls of GENERATORS_MAP[name](np.array(shape), **kwargs) over all shapes r,c in 1..6 plus random shapes, "
         "kwargs drawn from the documented grid, entered with seeded and with already-consumed global RNG streams; every return "
         "is judged by an adjacency-set reference model (dtype/shape, boundary rule, spanning tree for default dfs/prim/wilson, "
